@@ -97,7 +97,16 @@ func (s *Schema) Example() (b []byte, err error) {
 		return nil, errors.NewDocumentError(s.file, errors.ErrEmptySchema)
 	}
 
-	return newExampleBuilder(s.inner.TypesList()).Build(s.inner.RootNode())
+	b, err = newExampleBuilder(s.inner.TypesList()).Build(s.inner.RootNode())
+	if err != nil {
+		var de errors.DocumentError
+		var e errors.Err
+		if !stdErrors.As(err, &de) && stdErrors.As(err, &e) {
+			// Report bare error codes like every other schema error.
+			return nil, errors.NewDocumentError(s.file, e)
+		}
+	}
+	return b, err
 }
 
 func (s *Schema) AddType(name string, sc jschema.Schema) (err error) {
@@ -113,6 +122,11 @@ func (s *Schema) AddType(name string, sc jschema.Schema) (err error) {
 	case *Schema:
 		if err := typ.load(); err != nil {
 			return fmt.Errorf("load added type: %w", err)
+		}
+
+		if typ.inner.RootNode() == nil {
+			// A type without an example can't be referenced.
+			return errors.NewDocumentError(typ.file, errors.ErrEmptySchema)
 		}
 
 		// Positions of errors found inside the type are relative to the type's
